@@ -38,6 +38,7 @@ type HBegin struct {
 	FrameLenOverride *uint32 `json:"frame_len,omitempty"`
 	FrameIdxOverride *uint32 `json:"frame_idx,omitempty"`
 	NoFrames         bool    `json:"no_frames,omitempty"`
+	ForceFrame       bool    `json:"force_frame,omitempty"` // send one 3-byte frame even for an empty file
 }
 
 type HostileCase struct {
@@ -148,11 +149,15 @@ func runHostile(c HostileCase) (res HostileResult) {
 	}()
 	// ---- the script
 	ctl, _ := a.OpenStream(ctx)
-	go func() { // drain whatever the receiver says
-		buf := make([]byte, 4096)
+	doneSeen := make(chan struct{}, 1024)
+	go func() { // read whatever the receiver says; count FileDone records
 		for {
-			if _, err := ctl.Read(buf); err != nil {
+			typ, _, err := transfer.VerifReadControlMessage(ctl)
+			if err != nil {
 				return
+			}
+			if typ == 0x13 {
+				doneSeen <- struct{}{}
 			}
 		}
 	}()
@@ -216,10 +221,32 @@ func runHostile(c HostileCase) (res HostileResult) {
 					sent++
 				}
 			}
+			if bg.ForceFrame && sent == 0 {
+				pl := []byte("xyz")
+				fh := make([]byte, 20)
+				binary.BigEndian.PutUint64(fh[0:8], key)
+				binary.BigEndian.PutUint32(fh[12:16], 3)
+				binary.BigEndian.PutUint32(fh[16:20], transfer.VerifCRC32C(pl))
+				ds.Write(fh)
+				ds.Write(pl)
+				sent++
+				time.Sleep(30 * time.Millisecond) // let the reader see the frame before FileEnd finalises the empty file
+			}
 			fe := []byte{0x12}
 			fe = binary.BigEndian.AppendUint64(fe, key)
 			fe = binary.BigEndian.AppendUint32(fe, sent)
 			ctl.Write(fe)
+		}
+		// a conforming sender writes End only after every FileDone; give the receiver 300 ms for that
+		waitUntil := time.After(300 * time.Millisecond)
+	waitDone:
+		for got := 0; got < len(c.Begins); {
+			select {
+			case <-doneSeen:
+				got++
+			case <-waitUntil:
+				break waitDone
+			}
 		}
 		ctl.Write([]byte{0xFF})
 		time.AfterFunc(300*time.Millisecond, func() { ds.Close(); ctl.Close() })
@@ -279,5 +306,96 @@ func runHostile(c HostileCase) (res HostileResult) {
 	}
 	sort.Strings(res.Created)
 	sort.Strings(res.Outside)
+	return
+}
+
+// ---- hostile receiver peer against the real SendManifestMultiStream
+
+type HostileSendCase struct {
+	Name   string `json:"name"`
+	RawAck string `json:"raw_ack"` // hex bytes the fake receiver writes on the control stream
+	Files  int    `json:"files"`
+	Close  bool   `json:"close_after"` // close the connection after writing
+}
+
+func runHostileSend(c HostileSendCase) (res HostileResult) {
+	res.Name = c.Name
+	defer func() {
+		if r := recover(); r != nil {
+			res.Note = fmt.Sprintf("panic:%v", r)
+		}
+	}()
+	tmp, _ := os.MkdirTemp("", "vhs")
+	defer os.RemoveAll(tmp)
+	src := filepath.Join(tmp, "tree")
+	os.MkdirAll(src, 0o755)
+	n := c.Files
+	if n < 1 {
+		n = 1
+	}
+	for i := 0; i < n; i++ {
+		os.WriteFile(filepath.Join(src, fmt.Sprintf("f%d", i)), content(uint64(i), 200), 0o644)
+	}
+	m, err := manifest.Scan(src)
+	if err != nil {
+		res.Note = err.Error()
+		return
+	}
+	a, b := netsim.NewPair(netsim.Options{Lazy: false})
+	defer a.Lose()
+	ctx, cancel := context.WithTimeout(context.Background(), 4*time.Second)
+	defer cancel()
+	sch := make(chan error, 1)
+	var m0 runtime.MemStats
+	runtime.GC()
+	runtime.ReadMemStats(&m0)
+	t0 := time.Now()
+	go func() {
+		opts := transfer.Options{ChunkSize: 64, ParallelFiles: 2, Resume: true}
+		sch <- transfer.SendManifestMultiStream(ctx, a, src, m, opts)
+	}()
+	go func() {
+		ctl, err := b.AcceptStream(ctx)
+		if err != nil {
+			return
+		}
+		go func() {
+			buf := make([]byte, 4096)
+			for {
+				if _, err := ctl.Read(buf); err != nil {
+					return
+				}
+			}
+		}()
+		raw, _ := hex.DecodeString(c.RawAck)
+		time.Sleep(20 * time.Millisecond)
+		ctl.Write(raw)
+		if c.Close {
+			time.Sleep(50 * time.Millisecond)
+			b.Close()
+		} else {
+			ctl.Close()
+		}
+	}()
+	select {
+	case err := <-sch:
+		res.Returned = true
+		res.RecvOK = err == nil
+		if err != nil {
+			res.RecvErr = err.Error()
+		}
+	case <-time.After(3 * time.Second):
+		res.Note = "sender did not return within 3s"
+		a.Lose()
+		cancel()
+		select {
+		case <-sch:
+		case <-time.After(time.Second):
+		}
+	}
+	res.ElapsedMs = time.Since(t0).Milliseconds()
+	var m1 runtime.MemStats
+	runtime.ReadMemStats(&m1)
+	res.HeapMB = float64(int64(m1.TotalAlloc)-int64(m0.TotalAlloc)) / (1 << 20)
 	return
 }
